@@ -31,10 +31,14 @@ def seq_jobs(prop, tier, exh_depth=(2, 3), quick_s=25, thorough_s=300):
     if tier == "quick":
         b = quick_s
         return [
-            job("seq", prop, "default", "vdev", shards=6, budget_s=b),
+            job("seq", prop, "default", "vdev", shards=5, budget_s=b),
             job("seq", prop, "default", "vrel", shards=3, budget_s=b),
-            job("seq", prop, "th2", "vdev", shards=3, budget_s=b),
-            job("seq", prop, "default", "vdev", shards=4, budget_s=b, args=["--exh", "--depth", str(exh_depth[0]), "--max-evals", "1"]),
+            job("seq", prop, "th2", "vdev", shards=2, budget_s=b),
+            job("seq", prop, "default", "vdev", shards=3, budget_s=b, args=["--exh", "--depth", str(exh_depth[0]), "--max-evals", "1"]),
+            # the other compile-time geometries, one shard each (16 shards = one wave on 16 cores)
+            job("seq", prop, "th1", "vdev", shards=1, budget_s=b),
+            job("seq", prop, "th8", "vdev", shards=1, budget_s=b),
+            job("seq", prop, "16k", "vdev", shards=1, budget_s=b),
         ]
     b = thorough_s
     js = [
@@ -101,10 +105,13 @@ def unit_jobs(engine, prop, tier, quick_s=20, thorough_s=240, geoms=("th2", "th1
 
 def special_jobs(engine, prop, tier, quick_s=25, thorough_s=300, geoms=("th2", "th1", "th8", "16k", "16k_th2"), quick_geoms=("th2",)):
     if tier == "quick":
-        js = [job(engine, prop, "default", "vdev", shards=9, budget_s=quick_s),
-              job(engine, prop, "default", "vrel", shards=4, budget_s=quick_s)]
+        js = [job(engine, prop, "default", "vdev", shards=7, budget_s=quick_s),
+              job(engine, prop, "default", "vrel", shards=3, budget_s=quick_s)]
         for g in quick_geoms:
-            js.append(job(engine, prop, g, "vdev", shards=3, budget_s=quick_s))
+            js.append(job(engine, prop, g, "vdev", shards=2, budget_s=quick_s))
+        # the other compile-time geometries, one shard each (16 shards = one wave on 16 cores)
+        for g in ("th1", "th8", "16k", "16k_th2"):
+            js.append(job(engine, prop, g, "vdev", shards=1, budget_s=quick_s))
         return js
     js = [job(engine, prop, "default", "vdev", shards=8, budget_s=thorough_s, args=["--thorough"]),
           job(engine, prop, "default", "vrel", shards=3, budget_s=thorough_s, args=["--thorough"])]
